@@ -15,7 +15,7 @@ CHECKS['C02'] = pipeline.check
 CHECKS['C15'] = pipeline.check
 CHECKS['C16'] = cfgsync.check
 CHECKS['C11'] = inject.check
-CHECKS['C03'] = loop.check
+CHECKS['C03'] = loop.check_c03
 CHECKS['C06'] = loop.check
 CHECKS['C19'] = replicas.check
 CHECKS['C05'] = loop.check_c05
